@@ -307,9 +307,9 @@ def run_deadlines(ctx, verdict, pid):
     got = vlib.read_lines_by_id(out)
     if rc != 0 or 'dl0' not in got:
         return [('Go driver TestVerifRelayDeadlines failed rc=%d' % rc, log[-2000:])]
-    want = 'SetDeadline=d:1700000001000000011 SetReadDeadline=r:1700000002000000022 SetWriteDeadline=w:1700000003000000033 Close=c'
+    want = 'SetDeadline=d:1700000001000000011 SetReadDeadline=r:1700000002000000022 SetWriteDeadline=w:1700000003000000033 Close=c OversizeRead=0:true:R:'
     if got['dl0'] != want:
-        verdict.oracle_failure('tlsconn-passthrough', '%s oracle: common.TLSConn does not pass its deadline / close calls through to the underlying connection unchanged (each as the same single call with the same argument): observed %s' % (pid, got['dl0']),
+        verdict.oracle_failure('tlsconn-passthrough', '%s oracle: common.TLSConn does not pass its deadline / close calls through to the underlying connection unchanged (each as the same single call with the same argument), or its Read of a record larger than the buffer does more than read the header and report io.ErrShortBuffer (it must put nothing on the wire): observed %s' % (pid, got['dl0']),
                                dict(kind='relay-deadlines', case='dl0 D', observed=got['dl0'], expected=want, how='go test -run TestVerifRelayDeadlines with harness/common/relay_copy_test.go'))
     verdict.cov['tlsconn_passthrough'] = got['dl0']
     return []
